@@ -169,6 +169,7 @@ type c07Exec struct {
 	cm          CircuitMap
 	nextIdx     map[int]uint64
 	closedChans map[int]bool
+	chanStatus  map[int]chanstate.ChannelStatus // status of the channels still reported as open
 	resMsgs     map[CircuitKey]bool
 	threads     map[int]*c07Thread
 	starter     *c07Thread
@@ -223,6 +224,7 @@ func newC07Exec(t *testing.T, out *verifkit.Writer, dir string, inChans, outChan
 		db:      &c07DB{DB: vdb, sched: sched},
 		inChans: inChans, outChans: outChans, nIds: nIds,
 		nextIdx: map[int]uint64{}, closedChans: map[int]bool{},
+		chanStatus: map[int]chanstate.ChannelStatus{},
 		resMsgs: map[CircuitKey]bool{}, threads: map[int]*c07Thread{},
 	}
 	// the initial map is created without faults (the model starts "up" and empty)
@@ -269,6 +271,8 @@ func (x *c07Exec) cfg() *CircuitMapConfig {
 					Db:             c07Store{sched: x.sched},
 				}
 				oc.RemoteCommitment.LocalHtlcIndex = x.nextIdx[c]
+				// default, borked or commitment-broadcast, as the schedule says
+				oc.SetChannelStatusForStore(x.chanStatus[c])
 				res = append(res, oc)
 			}
 			return res, nil
@@ -456,6 +460,10 @@ func (x *c07Exec) apply(ev c07Event) {
 		x.closedChans[ev.C] = true
 	case "AddResMsg":
 		x.resMsgs[c07Key(ev.Outs[0])] = true
+	case "MarkBorked":
+		x.chanStatus[ev.C] = chanstate.ChanStatusBorked
+	case "MarkCommitBroadcast":
+		x.chanStatus[ev.C] = chanstate.ChanStatusCommitBroadcasted
 
 	case "Crash":
 		x.crash()
@@ -739,6 +747,11 @@ func (d *c07Driver) inKeyBusy(k CircuitKey) bool {
 	return false
 }
 
+// noLink: the channel is fully closed or has left the default status - no link will run for it.
+func (d *c07Driver) noLink(c int) bool {
+	return d.x.closedChans[c] || d.x.chanStatus[c] != chanstate.ChanStatusDefault
+}
+
 func (d *c07Driver) chanBusy(c int) bool {
 	for _, b := range d.busyChan {
 		if b == c {
@@ -898,7 +911,7 @@ func (d *c07Driver) step(s int) {
 
 		case r < 60 && idle != 0: // open the next ids of a channel
 			c := x.outChans[d.rng.Intn(len(x.outChans))]
-			if d.chanBusy(c) || x.closedChans[c] {
+			if d.chanBusy(c) || d.noLink(c) {
 				continue
 			}
 			next := int(x.nextIdx[c])
@@ -933,7 +946,7 @@ func (d *c07Driver) step(s int) {
 
 		case r < 66 && idle != 0: // a link (re)starts: trim
 			c := x.outChans[d.rng.Intn(len(x.outChans))]
-			if d.chanBusy(c) || x.closedChans[c] {
+			if d.chanBusy(c) || d.noLink(c) {
 				continue
 			}
 			d.op[idle] = "Trim"
@@ -1005,7 +1018,7 @@ func (d *c07Driver) step(s int) {
 		case r < 93: // the channel commits its next htlc
 			c := -1
 			for _, oc := range x.outChans {
-				if !(d.chanBusy(oc) || x.closedChans[oc] || int(x.nextIdx[oc]) >= x.nIds ||
+				if !(d.chanBusy(oc) || d.noLink(oc) || int(x.nextIdx[oc]) >= x.nIds ||
 					x.cm.LookupOpenCircuit(c07Key([]int{oc, int(x.nextIdx[oc])})) == nil) &&
 					(c < 0 || d.rng.Intn(2) == 0) {
 					c = oc
@@ -1017,7 +1030,20 @@ func (d *c07Driver) step(s int) {
 			d.emit(c07Event{A: "AdvanceIdx", C: c, Ok: 1})
 			return
 
-		case r < 95 && s >= d.closeAfter: // a resolution message / a channel is fully closed
+		case r < 96 && s >= d.closeAfter: // a resolution message / a channel is fully closed or marked
+			if d.rng.Intn(2) == 0 {
+				c := x.outChans[d.rng.Intn(len(x.outChans))]
+				if x.closedChans[c] || d.chanBusy(c) ||
+					x.chanStatus[c] != chanstate.ChanStatusDefault {
+					continue
+				}
+				a := "MarkBorked"
+				if d.rng.Intn(2) == 0 {
+					a = "MarkCommitBroadcast"
+				}
+				d.emit(c07Event{A: a, C: c, Ok: 1})
+				return
+			}
 			if d.rng.Intn(2) == 0 {
 				c := x.outChans[d.rng.Intn(len(x.outChans))]
 				o := []int{c, d.rng.Intn(x.nIds)}
